@@ -3,7 +3,8 @@ from contracts.tree import ALL_OF as _ALLOF, AddSaveConcatenated, OpenResetsRegi
 from contracts.writer import FetchHandleStub, WriteAttributes
 from contracts.workspace_io import CloseContract
 from contracts.histories import ApiHistories
-CONTRACTS = list(_H) + [AddSaveConcatenated, OpenResetsRegistries, ParentSet, FetchHandleStub, WriteAttributes, CloseContract, ApiHistories] + list(_ALLOF)
+from contracts.concat import ConcatHistories as _CH
+CONTRACTS = list(_H) + [AddSaveConcatenated, OpenResetsRegistries, ParentSet, FetchHandleStub, WriteAttributes, CloseContract, ApiHistories] + list(_ALLOF) + [_CH]
 
 MANIFEST = {
     "category": "proof",
